@@ -112,7 +112,23 @@ fn case(cx: &mut CaseCtx, input: Input, cfg: &GenCfg) -> CaseResult {
             v.iter().any(|e| e.kind == crate::refcheck::EKind::Module) && v.iter().any(|e| e.kind != crate::refcheck::EKind::Module)
         });
         if ambiguous {
-            cx.label("skipped-module-definition-collision");
+            // A definition with the scoped name of a module of some file: ill-formed ("names unique
+            // within their scope", E010 since the F-15 fix) in whatever order the files come.  What
+            // else is reported depends on which of the two a reference binds to, so only the
+            // rejection and its code are judged here.
+            cx.label("module-definition-collision");
+            cx.nontrivial = true;
+            let (texts, _r) = render_layout(&p, lay_bytes, 0);
+            cx.sample_with(|| json!({"files": texts, "violated": ["R-NAME-MODULE-DEFINITION"]}));
+            let state = compile_strings(&texts, None);
+            let diags = diagnostics_of(state, &Default::default());
+            let errors = error_codes(&diags);
+            check!(
+                errors.iter().any(|c| c == "E010"),
+                "accept-mismatch/rule=R-NAME-MODULE-DEFINITION",
+                "a definition has the same scoped name as a module, but no E010 is reported (codes {errors:?})\n--- source ---\n{}",
+                texts.join("\n=====\n")
+            );
             return Ok(());
         }
     }
